@@ -21,9 +21,10 @@ H_ACTIONS = {"HStartSpawn", "AllocTsm", "BoxClosure", "AfterClosure", "AllocTlsP
 PROG_OPS = {"ProgJ": ["s1", "j1"], "ProgD": ["s1", "d1"], "ProgK": ["s1"],
             "ProgJJ": ["s1", "s2", "j1", "j2"], "ProgJJr": ["s1", "s2", "j2", "j1"],
             "ProgJD": ["s1", "s2", "j1", "d2"], "ProgDJ": ["s1", "s2", "d1", "j2"],
-            "ProgDD": ["s1", "s2", "d1", "d2"], "ProgSJSJ": ["s1", "j1", "s2", "j2"]}
+            "ProgDD": ["s1", "s2", "d1", "d2"], "ProgSJSJ": ["s1", "j1", "s2", "j2"],
+            "ProgJJJ": ["s1", "s2", "s3", "j1", "j2", "j3"], "ProgJDJ": ["s1", "s2", "s3", "j3", "d2", "j1"]}
 FINS = {"FinR": ["ret"], "FinP": ["panic"], "FinRR": ["ret", "ret"], "FinRP": ["ret", "panic"],
-        "FinPR": ["panic", "ret"], "FinPP": ["panic", "panic"]}
+        "FinPR": ["panic", "ret"], "FinPP": ["panic", "panic"], "FinRPR": ["ret", "panic", "ret"]}
 
 
 def tla_bool(b):
@@ -65,6 +66,10 @@ def scenarios(tier):
     for prog, fin in two:
         out.append((prog + fin, prog, fin, "NoThread", "NoThread"))
     out.append(("ProgJJFinRR-clonefail2", "ProgJJ", "FinRR", "NoThread", "Only2"))
+    if tier != "quick":
+        # three concurrently live threads (model only, not replayed)
+        out.append(("ProgJJJFinRPR", "ProgJJJ", "FinRPR", "NoThread", "NoThread"))
+        out.append(("ProgJDJFinRPR", "ProgJDJ", "FinRPR", "NoThread", "NoThread"))
     return out
 
 
@@ -264,7 +269,8 @@ def ops_string(prog, fin, ty):
 
 def replay_configs(tier):
     one = [(p, f) for p in ("ProgJ", "ProgD", "ProgK") for f in ("FinR", "FinP")]
-    two = [("ProgJJ", "FinRP")] if tier == "quick" else [("ProgJJ", "FinRP"), ("ProgJD", "FinRR"), ("ProgDJ", "FinPR"), ("ProgJJr", "FinRR"), ("ProgDD", "FinRP")]
+    two = [("ProgJJ", "FinRP")] if tier == "quick" else [("ProgJJ", "FinRP"), ("ProgJD", "FinRR"), ("ProgDJ", "FinPR"), ("ProgJJr", "FinRR"), ("ProgDD", "FinRP"),
+                                                         ("ProgJDJ", "FinRPR")]
     return one, two
 
 
